@@ -279,3 +279,88 @@ pub fn args() -> Args {
         replay,
     }
 }
+
+// ---------------------------------------------------------------------------------------------
+// Operator-string encoding shared with QmcModel/Basic.lean (`Proto.showSlots`):
+//   L<cutoff>:p@bond;vars;ins;outs;D|O;const+...
+// ---------------------------------------------------------------------------------------------
+use qmc::sse::qmc_traits::{Hamiltonian, Op, OpContainer};
+
+pub fn show_op<O: Op>(op: &O) -> String {
+    format!(
+        "{};{};{};{};{};{}",
+        op.get_bond(),
+        list(op.get_vars()),
+        bits(op.get_inputs()),
+        bits(op.get_outputs()),
+        if op.is_diagonal() { "D" } else { "O" },
+        op.is_constant() as u8
+    )
+}
+
+pub fn show_slots<M: OpContainer>(m: &M) -> String {
+    let l = m.get_cutoff();
+    let ops: Vec<String> = (0..l)
+        .filter_map(|p| m.get_pth(p).map(|op| format!("{}@{}", p, show_op(op))))
+        .collect();
+    format!("L{}:{}", l, ops.join("+"))
+}
+
+/// One bond of a table Hamiltonian: variables, constant flag, full matrix indexed by
+/// (outputs ++ inputs) msb first (like `Interaction`), length 4^k.
+#[derive(Clone, Debug)]
+pub struct TableBond {
+    pub vars: Vec<usize>,
+    pub constant: bool,
+    pub mat: Vec<f64>,
+}
+
+/// A harness-defined `Hamiltonian` with explicit weight tables.
+#[derive(Clone, Copy, Debug)]
+pub struct TableHam<'a> {
+    pub bonds: &'a [TableBond],
+}
+
+pub fn bit_index<'b>(it: impl Iterator<Item = &'b bool>) -> usize {
+    it.fold(0usize, |a, b| a * 2 + (*b as usize))
+}
+
+impl<'a> Hamiltonian<'a> for TableHam<'a> {
+    fn hamiltonian(&self, _vars: &[usize], bond: usize, inputs: &[bool], outputs: &[bool]) -> f64 {
+        self.bonds[bond].mat[bit_index(outputs.iter().chain(inputs.iter()))]
+    }
+    fn edge_fn(&self, bond: usize) -> (&'a [usize], bool) {
+        (&self.bonds[bond].vars, self.bonds[bond].constant)
+    }
+    fn num_bonds(&self) -> usize {
+        self.bonds.len()
+    }
+}
+
+/// `nbonds!vars:const:mat!vars:const:mat…` (mat as exact rationals) — parsed by `Proto.parseHam`.
+pub fn show_table_ham(bonds: &[TableBond]) -> String {
+    let parts: Vec<String> = bonds
+        .iter()
+        .map(|b| format!("{}:{}:{}", list(&b.vars), b.constant as u8, rats(&b.mat)))
+        .collect();
+    format!("H{}!{}", bonds.len(), parts.join("!"))
+}
+
+/// Independent re-implementation of "propagate and check" (not `verify()`): returns the
+/// propagated final state or the first p at which an op does not meet its inputs.
+pub fn propagate_check<M: OpContainer>(m: &M, state: &[bool]) -> Result<Vec<bool>, usize> {
+    let mut s = state.to_vec();
+    for p in 0..m.get_cutoff() {
+        if let Some(op) = m.get_pth(p) {
+            for (k, v) in op.get_vars().iter().enumerate() {
+                if s[*v] != op.get_inputs()[k] {
+                    return Err(p);
+                }
+            }
+            for (k, v) in op.get_vars().iter().enumerate() {
+                s[*v] = op.get_outputs()[k];
+            }
+        }
+    }
+    Ok(s)
+}
